@@ -38,6 +38,7 @@ var c09MoreValues = []c09Value{
 	{"NOERROR;MX;010 mx.example", "MX|10 mx.example"},
 	// a typed rewrite with an empty value is not the value-less one
 	{"NOERROR;TXT;", "TXT|"},
+	{"NOERROR;TXT;" + strings.Repeat("k", 255) + "1", "TXT|k255+1"}, {"NOERROR;TXT;" + strings.Repeat("k", 255) + "2", "TXT|k255+2"},
 	// equal values, different record types
 	{"NOERROR;SVCB;10 svc.example alpn=h2", "SVCB|10 svc.example alpn=h2"},
 	{"NOERROR;PTR;ptr.example.", "PTR|ptr.example."}, {"NOERROR;TXT;ptr.example.", "TXT|ptr.example."},
@@ -263,6 +264,52 @@ func init() {
 				nontrivial += ln
 				mu.Unlock()
 			})
+		}
+		// size layer: 9, 17 and 33 rewrites with exceptions for the first, a middle
+		// and the last one (and an important exception, and the value-less one),
+		// placed before, after and between them
+		for _, n := range []int{9, 17, 33} {
+			mk := func(i int, exc, imp bool) *rules.NetworkRule {
+				t := fmt.Sprintf("||example.org^$dnsrewrite=10.0.%d.%d", n, i)
+				if imp {
+					t += ",important"
+				}
+				if exc {
+					t = "@@" + t
+				}
+				c09Syms[t] = c09Sym{exc, imp, fmt.Sprintf("A|10.0.%d.%d", n, i)}
+				return mustNetRule(t, 1)
+			}
+			var rws []*rules.NetworkRule
+			for i := 0; i < n; i++ {
+				rws = append(rws, mk(i, false, i%5 == 2))
+			}
+			excSets := [][]*rules.NetworkRule{
+				{mk(0, true, false), mk(n/2, true, false), mk(n-1, true, false)},
+				{mk(2, true, true), mk(n-1, true, false), mk(n-2, true, false), mk(n-3, true, false)},
+				{get("@@||example.org^$dnsrewrite"), mk(2, true, false)},
+				{get("@@||example.org^$dnsrewrite,important")},
+			}
+			for _, es := range excSets {
+				for place := 0; place < 3; place++ {
+					var seq []*rules.NetworkRule
+					switch place {
+					case 0:
+						seq = append(append(seq, es...), rws...)
+					case 1:
+						seq = append(append(seq, rws...), es...)
+					default:
+						for i, r := range rws {
+							seq = append(seq, r)
+							if i < len(es) {
+								seq = append(seq, es[i])
+							}
+						}
+					}
+					evals++
+					c09CheckSeq(c, seq)
+				}
+			}
 		}
 		// layer 2: longer sequences over the 14-symbol sub-alphabet
 		sub := c09SubAlphabet()
